@@ -8,14 +8,32 @@
 //!                           sc-shim log of a real `setup_io_uring` + `drop` as a resource script;
 //!                           `single`=0 hides IORING_FEAT_SINGLE_MMAP from the code; `fail`=k makes the
 //!                           k-th mmap fail with ENOMEM
+//!  `kring <flags> <sqk> <cqk> <c> <cc> : <op> : ...`  (only with `--cfg tiny_std_verif`) the real ring methods over
+//!                           harness-owned ring memory against a simulated kernel obeying the C18 kernel contract
+//!                           (see `kring.rs`)
+//!  `refrace <entries>`      real ring: a kernel overflow flush between `get_next_cqe()` and the read of the
+//!                           returned reference
+//!  `overflow <dir> <seed> <rounds> <entries>`  real ring: more completions outstanding than the completion ring
+//!                           holds (kernel overflow list), reaped late, vs direct syscalls in a twin directory
 //!  `netprobe <dir>`         connect/accept through the ring vs the direct syscalls
 //!  `batch <dir> <seed> <nbatches>`  random batches on one long-lived ring vs direct syscalls
 #![allow(clippy::all)]
 use std::io::{BufRead, Write};
 
 mod batch;
+#[cfg(tiny_std_verif)]
+mod kring;
 mod sqe;
 mod teardown;
+
+/// the simulated-kernel stream needs the `verif_from_raw_parts` hook of /repo (`--cfg tiny_std_verif`)
+#[cfg(tiny_std_verif)]
+fn kring_case(line: &str) -> String {
+    let l = line.to_string();
+    match std::panic::catch_unwind(move || kring::run_case(&l)) { Ok(s) => s, Err(_) => "harness-panic".to_string() }
+}
+#[cfg(not(tiny_std_verif))]
+fn kring_case(_line: &str) -> String { "bad-op".to_string() }
 
 fn main() {
     std::panic::set_hook(Box::new(|_| {}));
@@ -26,6 +44,7 @@ fn main() {
         let line = line.unwrap();
         let w: Vec<&str> = line.split_whitespace().collect();
         let res = match w.as_slice() {
+            ["kring", ..] => kring_case(line.trim()),
             ["sqe", name, args @ ..] => {
                 let name = name.to_string();
                 let args: Option<Vec<i128>> = args.iter().map(|a| a.parse::<i128>().ok()).collect();
@@ -50,6 +69,10 @@ fn main() {
                     _ => "bad-op".to_string(),
                 }
             }
+            ["overflow", dir, seed, rounds, entries] => match (seed.parse(), rounds.parse(), entries.parse::<usize>()) {
+                (Ok(seed), Ok(r), Ok(e)) if (1..=4096).contains(&e) => batch::overflow(dir, seed, r, e),
+                _ => "bad-op".to_string(),
+            },
             ["netprobe", dir] => batch::netprobe(dir),
             ["refrace", e] => match e.parse::<usize>() {
                 Ok(e) if (1..=4096).contains(&e) => batch::refrace(e),
